@@ -494,8 +494,17 @@ fn build(r: &mut StdRng, n: &str, comps: &[Value], valid: bool) -> Built {
                     "second_document" => format!("{}{}", good, good),
                     "not_json" => "this is not json".to_string(),
                     "empty_body" => String::new(),
-                    "wrong_content_type" => { ctype = Some("application/x-www-form-urlencoded".into()); good }
-                    "unsupported_content_type" => { ctype = Some("text/plain".into()); good }
+                    // another content type that dropshot knows, but not this endpoint's
+                    "wrong_content_type" => {
+                        ctype = Some(["application/x-www-form-urlencoded", "application/octet-stream", "multipart/form-data; boundary=XyZ",
+                            "Application/Octet-Stream", "multipart/form-data"][r.gen_range(0..5)].into());
+                        good
+                    }
+                    // a content type dropshot does not know at all
+                    "unsupported_content_type" => {
+                        ctype = Some(["text/plain", "application/xml", "application/jsonx", "image/png", "*/*", "application/json-patch+json"][r.gen_range(0..6)].into());
+                        good
+                    }
                     "null_body" => "null".to_string(),
                     _ => "[1,2,3]".to_string(),
                 };
@@ -526,7 +535,8 @@ fn build(r: &mut StdRng, n: &str, comps: &[Value], valid: bool) -> Built {
                     "wrong_type" => parts[1] = "u=many".into(),
                     "missing_field" => { parts.remove(2); }
                     "duplicate_field" => parts.push("u=5".into()),
-                    "json_content_type" => ctype = "application/json".into(),
+                    // (class name kept; any known content type other than the endpoint's)
+                    "json_content_type" => ctype = ["application/json", "application/octet-stream", "multipart/form-data; boundary=q"][r.gen_range(0..3)].into(),
                     "empty_body" => parts.clear(),
                     _ => {}
                 }
@@ -656,6 +666,36 @@ async fn send_one(addr: std::net::SocketAddr, n: String, case: Value, valid: boo
 
 type Job = (String, Value, bool, Built, Vec<u8>);
 
+/// One request on a connection of its own over TLS.  Many of these run at once, next to connections that
+/// never start their handshake, so handshakes complete in an order of their own.
+async fn send_one_tls(addr: std::net::SocketAddr, connector: tokio_rustls::TlsConnector, n: String, case: Value, valid: bool, built: Built, bytes: Vec<u8>) {
+    let sock = tokio::net::TcpSocket::new_v4().unwrap();
+    sock.bind("127.0.0.1:0".parse().unwrap()).unwrap();
+    let port = sock.local_addr().unwrap().port();
+    emit_send(&n, &case, valid, port, &built, &built.target);
+    let Ok(s) = sock.connect(addr).await else {
+        emit("client_noresp", json!({"n": n, "problem": "connect"}));
+        return;
+    };
+    let _ = s.set_nodelay(true);
+    let name = rustls::pki_types::ServerName::try_from("localhost").unwrap();
+    let mut s = match tokio::time::timeout(Duration::from_secs(20), connector.connect(name, s)).await {
+        Ok(Ok(t)) => t,
+        _ => {
+            emit("client_noresp", json!({"n": n, "problem": "tls handshake"}));
+            return;
+        }
+    };
+    let _ = s.write_all(&bytes).await;
+    let mut rd = httpc::Reader::new();
+    let resp = rd.read_response(&mut s, false, Duration::from_secs(20)).await;
+    if resp.wellformed {
+        emit("client_recv", json!({"n": n, "status": resp.status, "idhdr": resp.headers_all("x-request-id"), "tls": true}));
+    } else {
+        emit("client_noresp", json!({"n": n, "problem": resp.problem, "tls": true}));
+    }
+}
+
 fn emit_send(n: &str, case: &Value, valid: bool, port: u16, built: &Built, target: &str) {
     emit("flow_send", json!({"n": n, "case": case, "valid": valid, "port": port, "m": built.method,
         "target_hex": hex(target.as_bytes()),
@@ -758,6 +798,24 @@ async fn send_h2(addr: std::net::SocketAddr, group: Vec<Job>) -> Vec<Job> {
     rest
 }
 
+fn make_api() -> ApiDescription<()> {
+    let mut api = ApiDescription::new();
+    api.register(ep_flow_p_string).unwrap();
+    api.register(ep_flow_p_u8).unwrap();
+    api.register(ep_flow_p_u32).unwrap();
+    api.register(ep_flow_p_i64).unwrap();
+    api.register(ep_flow_p_bool).unwrap();
+    api.register(ep_flow_p_enum).unwrap();
+    api.register(ep_flow_wild).unwrap();
+    api.register(ep_flow_qreq).unwrap();
+    api.register(ep_flow_json).unwrap();
+    api.register(ep_flow_form).unwrap();
+    api.register(ep_flow_raw).unwrap();
+    api.register(ep_flow_rawreq).unwrap();
+    api.register(ep_flow_multipart).unwrap();
+    api
+}
+
 fn main() {
     let args: Vec<String> = std::env::args().collect();
     let thorough = args[1] == "thorough";
@@ -768,28 +826,28 @@ fn main() {
     let seed = seed_from_env();
     let rt = tokio::runtime::Builder::new_multi_thread().worker_threads(6).enable_all().build().unwrap();
     rt.block_on(async {
-        let mut api = ApiDescription::new();
-        api.register(ep_flow_p_string).unwrap();
-        api.register(ep_flow_p_u8).unwrap();
-        api.register(ep_flow_p_u32).unwrap();
-        api.register(ep_flow_p_i64).unwrap();
-        api.register(ep_flow_p_bool).unwrap();
-        api.register(ep_flow_p_enum).unwrap();
-        api.register(ep_flow_wild).unwrap();
-        api.register(ep_flow_qreq).unwrap();
-        api.register(ep_flow_json).unwrap();
-        api.register(ep_flow_form).unwrap();
-        api.register(ep_flow_raw).unwrap();
-        api.register(ep_flow_rawreq).unwrap();
-        api.register(ep_flow_multipart).unwrap();
+        let api = make_api();
         let log = slog::Logger::root(slog::Discard, slog::o!());
         let config = ConfigDropshot {
             bind_address: "127.0.0.1:0".parse().unwrap(),
             default_request_body_max_bytes: 100000,
             ..Default::default()
         };
-        let server = ServerBuilder::new(api, (), log).config(config).start().expect("server");
+        let server = ServerBuilder::new(api, (), log).config(config.clone()).start().expect("server");
         let addr = server.local_addr();
+        // the same API behind TLS
+        let ck = rcgen::generate_simple_self_signed(vec!["localhost".to_string()]).expect("self-signed certificate");
+        let tls_server = ServerBuilder::new(make_api(), (), slog::Logger::root(slog::Discard, slog::o!()))
+            .config(config)
+            .tls(Some(dropshot::ConfigTls::AsBytes { certs: ck.cert.pem().into_bytes(), key: ck.key_pair.serialize_pem().into_bytes() }))
+            .start()
+            .expect("tls server");
+        let tls_addr = tls_server.local_addr();
+        let mut roots = rustls::RootCertStore::empty();
+        roots.add(ck.cert.der().clone()).expect("root");
+        let connector = tokio_rustls::TlsConnector::from(std::sync::Arc::new(
+            rustls::ClientConfig::builder().with_root_certificates(roots).with_no_client_auth(),
+        ));
         let mut all: Vec<(Value, bool)> = vec![];
         for key in ["single", "pq", "qb"] {
             for c in jarr(&cases[key]) {
@@ -806,7 +864,7 @@ fn main() {
             for batch in all.chunks(16) {
                 // transport of this batch: one connection per request, pipelined groups on shared HTTP/1.1
                 // connections, or concurrent streams of HTTP/2 connections -- all at once in every case
-                let mode = r.gen_range(0..4);
+                let mode = r.gen_range(0..5);
                 let mut jobs: Vec<Job> = vec![];
                 for (comps, valid) in batch {
                     ctr += 1;
@@ -847,6 +905,29 @@ fn main() {
                             }
                         }
                     }
+                    3 => {
+                        // over TLS, all at once, among connections that connect and then say nothing (their
+                        // handshakes never complete, the others complete in whatever order they like)
+                        let mut stalled = vec![];
+                        for _ in 0..r.gen_range(0..4) {
+                            if let Ok(s) = tokio::net::TcpStream::connect(tls_addr).await {
+                                stalled.push(s);
+                            }
+                        }
+                        let mut tls_tasks = vec![];
+                        for (i, (n, comps, valid, built, bytes)) in jobs.into_iter().enumerate() {
+                            if i % 3 == 1 {
+                                if let Ok(s) = tokio::net::TcpStream::connect(tls_addr).await {
+                                    stalled.push(s);
+                                }
+                            }
+                            tls_tasks.push(tokio::spawn(send_one_tls(tls_addr, connector.clone(), n, comps, valid, built, bytes)));
+                        }
+                        for t in tls_tasks {
+                            let _ = t.await;
+                        }
+                        drop(stalled);
+                    }
                     _ => plain = jobs,
                 }
                 for (n, comps, valid, built, bytes) in plain {
@@ -858,6 +939,7 @@ fn main() {
             }
         }
         let _ = server.close().await;
+        let _ = tls_server.close().await;
     });
     let lines = dropshot::verif::take_memory();
     std::fs::write(&out, lines.join("\n") + "\n").unwrap();
